@@ -497,9 +497,60 @@ pub fn run(ctx: &mut Ctx) {
             }
             n += if n < 8 || n + 8 > total { 1 } else { step };
         }
+        // the same record with ONE bit of an inner length field flipped (the high byte of a 24-bit handshake length,
+        // a list length, ...): the framing contract is a function of the five header bytes only, so every prefix
+        // still answers Incomplete with the exact number of missing bytes, whatever the payload now looks like
+        if ct == 0x16 && l >= 4 && l <= 2000 {
+            let pos = 5 + if r.chance(1, 2) { 1 + r.usize(0, 2) } else { r.usize(0, l - 1) };
+            let bit = 1u8 << r.below(8);
+            let mut rec2 = rec.clone();
+            rec2[pos] ^= bit;
+            let mut n = 5;
+            while n < total {
+                let input = &rec2[..n];
+                if let Some(o) = ctx.guarded("parse_tls_plaintext", input, || call(P::Plain, input)) {
+                    ctx.eval();
+                    ctx.count("plain.calls");
+                    ctx.count("plain.bitflip-prefixes");
+                    if let Some(rule) = judge(P::Plain, ct, v, l, input, &o) {
+                        report(ctx, P::Plain, ct, v, l, input, &o, rule);
+                    }
+                }
+                n += if n < 16 || n + 8 > total { 1 } else { step.max(3) };
+            }
+        }
         if ctx.wants_sample() {
             ctx.sample(json!({"record_hex": hex_short(&rec), "content_type": ct, "messages": msgs.len()}));
         }
+    });
+
+    // --------------------------------------------- handshake records whose first message length field is a 16-bit
+    // coincidence: low 16 bits equal to (record length - 4) with every non-zero high byte, for all handshake types:
+    // every prefix still answers Incomplete(missing)
+    ctx.floor("hs-length-high-byte", 4_000);
+    ctx.sweep("hs-length-high-byte", 256, |ctx, idx| {
+        let hi = idx as u8;
+        let mut rng = Rng::new(idx ^ 0x416);
+        for ty in [1u8, 2, 0, 4, 11, 12, 13, 14, 16, 20, 99] {
+            for l in [4usize, 5, 64, 300] {
+                let mut rec = vec![0x16u8, 3, 3, (l >> 8) as u8, l as u8, ty, hi, ((l - 4) >> 8) as u8, (l - 4) as u8];
+                rec.extend(rng.bytes(l - 4));
+                for n in [5usize, 6, 8, 9, 10, 5 + l / 2, 5 + l - 1] {
+                    if n >= 5 + l {
+                        continue;
+                    }
+                    let input = &rec[..n];
+                    if let Some(o) = ctx.guarded("parse_tls_plaintext", input, || call(P::Plain, input)) {
+                        ctx.eval();
+                        ctx.count("hs-length-high-byte");
+                        if let Some(rule) = judge(P::Plain, 0x16, 0x0303, l, input, &o) {
+                            report(ctx, P::Plain, 0x16, 0x0303, l, input, &o, rule);
+                        }
+                    }
+                }
+            }
+        }
+        ctx.shape(&("hs-hi", idx / 16));
     });
 
     // --------------------------------------------- plaintext: complete record whose content "wants more"
